@@ -21,10 +21,13 @@ CRATES = {
             ("src/patch/apply.rs", "mpq/patch_apply.rs", "verif_kani_patch", ""),
             ("src/compression/algorithms/rle.rs", "mpq/rle.rs", "verif_kani_rle", ""),
             ("src/header.rs", "mpq/header.rs", "verif_kani_header", ""),
+            ("src/patch_chain.rs", "mpq/patch_chain.rs", "verif_kani_chain", ""),
+            ("src/special_files/attributes.rs", "mpq/attributes.rs", "verif_kani_attributes", ""),
+            ("src/compression/mod.rs", "mpq/dispatch.rs", "verif_kani_dispatch", ""),
             ("src/compression/algorithms/adpcm.rs", "mpq/adpcm.rs", "verif_kani_adpcm", ""),
             ("src/tables/hash.rs", "mpq/tables_hash.rs", "verif_kani_tables_hash", ""),
         ],
-        "prepend": [("src/lib.rs", "#![cfg_attr(kani, feature(read_buf, core_io_borrowed_buf))]")],
+        "prepend": [("src/lib.rs", "#![cfg_attr(kani, feature(read_buf, core_io_borrowed_buf))]\n#![cfg_attr(kani, recursion_limit = \"512\")]")],
     },
     "cdbc": {
         "dir": "file-formats/database/wow-cdbc",
@@ -231,18 +234,20 @@ _BP = "verif_kani_builder_path"
 _pathfns = ["builder::ArchiveBuilder::write_file", "builder::ArchiveBuilder::add_to_hash_table", "builder::ArchiveBuilder::calculate_file_key",
             "builder::ArchiveBuilder::encrypt_data", "archive::Archive::read_file", "archive::Archive::find_file", "tables::HashTable::find_file",
             "archive::decrypt_file_data", "crypto::hash_string"]
-H("C01", "mpq", _BP, "quick", "C01.d writer->reader data path, single-unit file, per configuration (plain / abstract codec / encrypted / fix-key)",
-  ["c01d_su_plain", "c01d_su_codec_shrinks", "c01d_su_codec_noshrink", "c01d_su_enc", "c01d_su_enc_fix", "c01d_su_enc_codec", "c01d_su_enc_fix_codec",
-   "c01d_empty_file", "c01d_absent_name_not_found"], _pathfns,
+H("C01", "mpq", _BP, "quick", "C01.d writer->reader data path, single-unit file, per configuration (plain / abstract codec / encrypted + position-adjusted key + codec)",
+  ["c01d_su_plain", "c01d_su_codec_shrinks", "c01d_su_enc_fix_codec", "c01d_empty_file", "c01d_absent_name_not_found"], _pathfns,
   "file content [u8; 5] symbolic (0 and 3 bytes in the edge cases), codec payload symbolic; configuration flags concrete per harness; lookup under a different case/slash spelling of the stored name",
   "one file of 5 bytes at archive offset 32, 4-slot hash table, sector size 512, V1 classic tables fabricated in memory",
   stubs=[FMT, MEMFILE, CODEC], abstraction_stubs=["compress", "decompress"], timeout=900)
-H("C01", "mpq", _BP, "quick", "C01.d multi-sector file (513 bytes, two sectors): plain and with one sector compressed through the abstract codec",
-  ["c01d_ms_plain", "c01d_ms_codec"], _pathfns + ["archive::Archive::read_sectored_file"],
+H("C01", "mpq", _BP, "thorough", "C01.d single-unit file, remaining configurations (encrypted, fix-key, encrypted + codec)",
+  ["c01d_su_enc", "c01d_su_enc_fix", "c01d_su_enc_codec"], _pathfns, "as above", "as above",
+  stubs=[FMT, MEMFILE, CODEC], abstraction_stubs=["compress", "decompress"], timeout=2400)
+H("C01", "mpq", _BP, "quick", "C01.d multi-sector file (513 bytes, two sectors) stored uncompressed",
+  ["c01d_ms_plain"], _pathfns,
   "last 4 bytes of sector 0 and the byte of sector 1 symbolic (rest concrete 0x11), codec payload symbolic", "513-byte file, sector size 512",
   stubs=[FMT, MEMFILE, CODEC], abstraction_stubs=["compress", "decompress"], timeout=1200)
 H("C01", "mpq", _BP, "thorough", "C01.d multi-sector file: sector-CRC flag, encrypted, position-adjusted key, encrypted + compressed",
-  ["c01d_ms_plain_crcflag", "c01d_ms_codec_crc", "c01d_ms_enc", "c01d_ms_enc_fix", "c01d_ms_enc_codec", "c01d_ms_enc_fix_codec"],
+  ["c01d_ms_codec", "c01d_ms_plain_crcflag", "c01d_ms_codec_crc", "c01d_ms_enc", "c01d_ms_enc_fix", "c01d_ms_enc_codec", "c01d_ms_enc_fix_codec"],
   _pathfns + ["archive::Archive::read_sectored_file"], "as above", "513-byte file, sector size 512",
   stubs=[FMT, MEMFILE, CODEC], abstraction_stubs=["compress", "decompress"], timeout=2400)
 H("C01", "mpq", _BP, "thorough", "C01.d single-unit file with sector checksum (real Adler-32 over symbolic bytes)",
@@ -327,8 +332,9 @@ H("C10", "mpq", _SG, "quick", "C10.a weak-signature padding: what the library pr
 H("C10", "mpq", _SG, "thorough", "C10.a strong-signature padding is exact", ["c10a_strong_padding_exact"],
   ["crypto::signature::verify_mpq_strong_signature_padding"], "block [u8; 256] and digest [u8; 20] symbolic", "256-byte block", stubs=[FMT], timeout=1800)
 H("C10", "mpq", _SG, "quick", "C10.b the weak-signature digest is fed exactly the signed range with the signature window zeroed",
-  ["c10b_weak_digest_covers_signed_range", "c10b_weak_digest_covers_inner_range"], ["crypto::signature::calculate_mpq_hash_md5", "crypto::signature::SignatureInfo::new_weak"],
-  "24 data bytes symbolic; exclusion window [xb, xe) within 24 symbolic; signed range [0,24) and [4,20)", "archive of 24 bytes (one digest block)",
+  ["c10b_digest_window_inside", "c10b_digest_window_at_start", "c10b_digest_window_at_end", "c10b_digest_window_empty", "c10b_digest_inner_range_window_overlaps"],
+  ["crypto::signature::calculate_mpq_hash_md5", "crypto::signature::SignatureInfo::new_weak"],
+  "24 data bytes symbolic; signed range and signature window concrete per harness (window inside / at start / at end / empty / overlapping the range start)", "archive of 24 bytes (one digest block)",
   stubs=[FMT, "md5::compress::compress -> tap recording the 64-byte blocks (decides which bytes are covered, never digest values)"], timeout=1500)
 H("C10", "mpq", _SG, "quick", "canary", ["c10_sig_canary"], ["crypto::signature::verify_pkcs1_v15_md5"], "vacuity twin", "-", expect="canary", stubs=[FMT])
 
@@ -412,6 +418,50 @@ H("C06", "mpq", _M, "quick", "C06.b in-place add: bytes and flags produced by pr
 H("C06", "mpq", _M, "quick", "C06.b in-place add with the position-adjusted key (regression harness of fixed finding KF-C06-inplace-fixkey)", ["c06b_inplace_enc_fix_witness"], _c06bf,
   "file content symbolic, encrypt + fix_key", "-", stubs=[FMT, MEMFILE, CODEC, RS, HS], abstraction_stubs=["compress", "decompress", "hash_string"],
   expect="witness:KF-C06-inplace-fixkey", timeout=900)
+
+# ------------------------------------------------------------------------------- C03.e codec dispatch
+_DP = "verif_kani_dispatch"
+H("C03", "mpq", _DP, "quick", "C03.e compress(selector) and decompress(selector) dispatch to the same codec; what compress emits is accepted by decompress under the default limits",
+  ["c03e_dispatch_%s" % n for n in ("huffman", "zlib", "implode", "pkware", "bzip2", "lzma", "sparse", "adpcm_mono", "adpcm_stereo")],
+  ["compression::compress::{compress,compress_internal}", "compression::decompress::{decompress,decompress_secure,decompress_with_monitor}",
+   "compression::methods::CompressionMethod::from_flags", "security::validate_decompression_operation", "security::validate_decompression_result"],
+  "one harness per published single-method selector, 4 data bytes symbolic", "4-byte input",
+  stubs=[FMT, INST, "every codec in compression::algorithms (zlib, bzip2, lzma, sparse, pkware, implode, huffman, adpcm) -> tagging stub (abstraction: the codecs themselves are out of CBMC's reach)"],
+  abstraction_stubs=["algorithms::*"], timeout=900)
+H("C03", "mpq", _DP, "quick", "C03.e selector byte -> codec mapping", ["c03e_from_flags_total"], ["compression::methods::CompressionMethod::from_flags"],
+  "selector u8 symbolic (all 256)", "-", stubs=[FMT])
+H("C03", "mpq", _DP, "quick", "canary", ["c03e_canary"], ["compression::methods::CompressionMethod::from_flags"], "vacuity twin", "-", expect="canary", stubs=[FMT])
+
+# ------------------------------------------------------------------------------- C10.d sector checksum enforcement
+H("C10", "mpq", _BP, "quick", "C10.d a single-byte change anywhere in a checksummed single-unit file's data or checksum is detected (or the content is unchanged); the intact file verifies",
+  ["c10d_single_byte_fault_detected", "c10d_intact_file_verifies", "c10d_accept_implies_checksum_matches"], _pathfns + ["adler2::adler32_slice"],
+  "file content [u8; 6] symbolic; fault offset within data+checksum (10 bytes) and XOR mask != 0 symbolic; third harness: 4-byte file, one data byte altered and the stored checksum replaced by 4 arbitrary bytes", "6-byte (4-byte) single-unit file",
+  stubs=[FMT, MEMFILE], timeout=1200)
+
+# ------------------------------------------------------------------------------- C08.d chain ordering step
+# harness/mpq/patch_chain.rs holds four PatchChain step harnesses (add/remove ordering, content resolution).
+# They are NOT registered: measured on this machine, the one-entry add step exceeds 14 GB and the two-entry
+# remove step does not finish in 40 minutes (Vec<ChainEntry> insert/remove of ~0.5 KB structs, PathBuf
+# comparisons, Archive drop glue).  Chain ordering and content resolution stay outside the claim (DESIGN 0.2).
+_CH = "verif_kani_chain"
+H("C08", "mpq", _P, "quick", "C08.b the digest checks accept exactly when the digest of the data equals the declared digest (no bypass for any declared value)",
+  ["c08b_verify_accepts_iff_digest_matches"], ["patch::header::PatchFile::{verify_base,verify_patched}"],
+  "3 data bytes and both declared 16-byte digests symbolic", "3-byte data (one digest block)",
+  stubs=[FMT, "md5::compress::compress -> a cheap mixing function (abstraction: the real MD5 rounds are SAT-hard; the verifier must agree with whatever digest function is plugged in)"],
+  abstraction_stubs=["md5::compress"], timeout=900)
+
+# ------------------------------------------------------------------------------- C02.d reference writer -> real reader
+H("C02", "mpq", _BP, "quick", "C02.d files laid out per the published format by a reference writer are read bit-identically: stored file (single-unit or not), compressed one-sector file with a sector offset table",
+  ["c02d_reference_one_sector_compressed", "c02d_reference_stored_file"],
+  ["archive::Archive::read_file", "archive::Archive::read_sectored_file", "archive::Archive::find_file", "tables::HashTable::find_file"],
+  "6 content bytes and the codec payload symbolic; single-unit flag symbolic for the stored file", "6-byte files at archive offset 32",
+  stubs=[FMT, MEMFILE, "compression::decompress -> abstract codec (inverts the prepared payload, rejects everything else)"],
+  abstraction_stubs=["decompress"], timeout=1200)
+
+H("C10", "mpq", _SG, "thorough", "C10.b signature window crossing a 64 KiB digest-unit boundary: exactly the window is zeroed, the bytes behind it stay covered",
+  ["c10b_digest_window_straddles_unit_boundary"], ["crypto::signature::calculate_mpq_hash_md5"],
+  "65664 signed bytes: 192 symbolic bytes around offset 65536 (rest concrete), window [65500, 65572)", "one boundary crossing",
+  stubs=[FMT, "md5::compress::compress -> tap recording the three 64-byte blocks around the boundary"], timeout=2400)
 
 
 # =============================================================================== per-property fragments
